@@ -831,7 +831,11 @@ pub fn run_plan(ops: &dyn Ops, plan: &Plan, opts: RunOpts) -> Outcome {
             err_fired: !r.fired.is_empty(),
             err_before_all: r.fired.iter().any(|f| f.top_done & all_top != all_top),
             keyed: medium.keyed(),
-            weak_keys: medium.key_form.is_bytes(),
+            // A Basis holds a private matrix: bit patterns written straight onto the medium are not
+            // values any public constructor can produce, and a reader may refuse them. Only "never
+            // wrong data" is demanded of such reads; reachable near-rotations come from the
+            // generator's drift leaf instead.
+            weak_keys: medium.key_form.is_bytes() || (patched && shape.has_wrap()),
             is_dec,
             patched,
         };
